@@ -24,7 +24,7 @@ def states(tier, seed):
     nys = [3, 5, 7] if tier == "quick" else [3, 5, 7, 9, 11]
     spans = [1.0, 10.0] if tier == "quick" else [1.0, 10.0, 60.0]
     chords = [0.5, 5.0] if tier == "quick" else [0.5, 1.0, 5.0]
-    for nx, ny, span, ch, sc, cc, wt, off in itertools.product(nxs, nys, spans, chords, [0.0, 0.3, 1.0], [0.0, 0.5, 1.0], ["rect", "CRM", "CRM:jig", "CRM:alpha_2.75"], [None, [3.0, 0.0, -1.0]]):
+    for nx, ny, span, ch, sc, cc, wt, off in itertools.product(nxs, nys, spans, chords, [0.0, 0.3, 1.0], [0.0, 0.5, 1.0], ["rect", "CRM", "CRM:jig", "CRM:alpha_2.75"], [None, [3.0, 0.0, -1.0], [0.5, 2.0, -2.5]]):  # the last offset's components cancel
         if wt != "rect" and (span != spans[0] or ch != chords[0]):
             continue  # span and root_chord are ignored for the CRM
         st.append(dict(part="gen", nx=nx, ny=ny, span=span, chord=ch, scos=sc, ccos=cc, wt=wt, off=off))
